@@ -9,6 +9,7 @@ import (
 	"math"
 	"net"
 	"os"
+	"runtime"
 	"strings"
 	"sync"
 	"testing"
@@ -224,8 +225,9 @@ const (
 	stIdle
 	stInject
 	stRead
-	stWait  // wait for the outstanding read (bounded)
-	stStray // data from a source the connection discards (connected sockets only)
+	stWait    // wait for the outstanding read (bounded)
+	stStray   // data from a source the connection discards (connected sockets only)
+	stRefresh // keep-alive: d = iterations; the deadline is set to now+12 ms every 400 us
 )
 
 type step struct {
@@ -254,6 +256,8 @@ func (s step) String() string {
 		return "read"
 	case stStray:
 		return "stray"
+	case stRefresh:
+		return fmt.Sprintf("refresh(x%d)", int(s.d))
 	}
 	return "wait"
 }
@@ -378,6 +382,29 @@ func runHistory(a adapter, hist []step, labels func(string)) string {
 			mu.Lock()
 			sets = append(sets, setRec{t0, time.Now(), d})
 			mu.Unlock()
+		case stRefresh:
+			// the deadline creeps forward in steps far below a millisecond for longer than
+			// its own length; a read started on the way must not time out before the
+			// deadline in force at that moment
+			for k := 0; k < int(st.d); k++ {
+				d := time.Now().Add(12 * time.Millisecond)
+				t0 := time.Now()
+				if err := a.SetReadDeadline(d); err != nil {
+					return fmt.Sprintf("%s: SetReadDeadline returned %v", a.Name(), err)
+				}
+				mu.Lock()
+				sets = append(sets, setRec{t0, time.Now(), d})
+				mu.Unlock()
+				lastBySetter[0] = d
+				if k == 5 && !outstanding() {
+					launch()
+				}
+				// paced by spinning: time.Sleep cannot be relied on for steps below a millisecond
+				for t := time.Now(); time.Since(t) < 300*time.Microsecond; {
+					runtime.Gosched()
+				}
+			}
+			labels("refresh-loop")
 		case stIdle:
 			time.Sleep(st.d)
 		case stInject:
@@ -547,7 +574,11 @@ func genHistory(t *rapid.T) ([]step, map[string]bool) {
 			if rapid.Bool().Draw(t, "wait") {
 				h = append(h, step{kind: stWait})
 			}
-		case k < 86:
+		case k < 84:
+			// keep-alive refreshes for 12..24 ms (the deadline is 12 ms long), a read on the way
+			h = append(h, step{kind: stRefresh, d: time.Duration(rapid.IntRange(40, 80).Draw(t, "refreshes"))}, step{kind: stWait})
+			expired = true
+		case k < 88:
 			// a deadline value applied, replaced through the other setter, and applied again
 			mid := rapid.SampledFrom([]string{"zero", "far", "past", "near"}).Draw(t, "mid")
 			firstBoth := rapid.Bool().Draw(t, "firstBoth")
@@ -572,7 +603,7 @@ func genHistory(t *rapid.T) ([]step, map[string]bool) {
 	return h, feat
 }
 
-const ruleC10 = "rapid-drawn history of 3..12 steps run in parallel on six adapters (packetio.Buffer, dpipe end, udp listener connection on a real loopback socket, vnet UDPConn behind a router, a connected (dialed) vnet UDPConn that also receives 'stray' datagrams from a third host, test.Bridge endpoint with a ticking goroutine): SetReadDeadline or (a quarter of the calls, where the type has it) SetDeadline with zero | 1 s in the past | +8..30 ms | +10 s | the year 9999, Unix(2^40), now + the largest Duration | the very value applied before (after the other setter replaced it), idle 0..40 ms, supply one message, start a read (at most one outstanding), optionally wait for it; real clock, executed under GODEBUG=asynctimerchan=1 and =0; oracle from monotonic timestamps: a timeout is legal only if a non-zero deadline in force during the call had passed when it returned; data is illegal once a read has timed out under the same unchanged deadline (or the deadline passed > 300 ms before the call); an outstanding read is released within 2 s of its unchanged deadline, or by data when none is pending; non-trivial = a deadline expired while no read was pending and was then extended or cleared before the next read, or two reads after one expiry; distinct by hash of the history"
+const ruleC10 = "rapid-drawn history of 3..12 steps run in parallel on six adapters (packetio.Buffer, dpipe end, udp listener connection on a real loopback socket, vnet UDPConn behind a router, a connected (dialed) vnet UDPConn that also receives 'stray' datagrams from a third host, test.Bridge endpoint with a ticking goroutine): SetReadDeadline or (a quarter of the calls, where the type has it) SetDeadline with zero | 1 s in the past | +8..30 ms | +10 s | the year 9999, Unix(2^40), now + the largest Duration | the very value applied before (after the other setter replaced it), idle 0..40 ms, a keep-alive loop that sets the deadline to now+12 ms every 300 us for 12..24 ms with a read started on the way, supply one message, start a read (at most one outstanding), optionally wait for it; real clock, executed under GODEBUG=asynctimerchan=1 and =0; oracle from monotonic timestamps: a timeout is legal only if a non-zero deadline in force during the call had passed when it returned; data is illegal once a read has timed out under the same unchanged deadline (or the deadline passed > 300 ms before the call); an outstanding read is released within 2 s of its unchanged deadline, or by data when none is pending; non-trivial = a deadline expired while no read was pending and was then extended or cleared before the next read, or two reads after one expiry; distinct by hash of the history"
 
 func TestC10Deadlines(t *testing.T) {
 	r := ev.New("C10", "deadlines/"+os.Getenv("GODEBUG"), ruleC10)
